@@ -29,6 +29,8 @@ def run(tier, seed):
              "xref stream, two revisions with /Prev, object streams; indirect /Length, CRLF after `stream`) and x every corpus file incl. the encrypted fixtures; "
              "the prefix is seeded random / textual / binary junk without the header marker; compared between prefixed and unprefixed: load outcome, trailer "
              "size and root, resolve of every object number (streams with a digest of their raw data), pages, version, and the complete scan() item list; "
+             "for the generated kinds (and a third of the corpus positions) one object is then added to both documents and both are saved: the open documents' reads "
+             "of every number below /Size and the complete observations of fresh loads of the two saved files are compared too (offsets written are relative to the header); "
              "non-trivial = prefix length > 0; the adequacy witnesses show that each of the five offset consumers is exercised by the model",
         assumptions=["prefixes that push the header beyond byte 1019 are outside the property (only 'no panic' is required there)",
                      "the spec models the five consumers of a file offset abstractly; byte-level behaviour is covered by the differential replay"],
